@@ -109,6 +109,8 @@ fn check_tape(tape: &[u8], gates: &Gates, stats: &mut Stats, counting: bool) -> 
                 LibraryElementKind::FunctionBlockDeclaration(_) => "decl.function_block",
                 LibraryElementKind::ProgramDeclaration(_) => "decl.program",
                 LibraryElementKind::ConfigurationDeclaration(_) => "decl.configuration",
+                #[allow(unreachable_patterns)]
+                _ => panic!("ironplc dsl variant unknown to the verification harness"),
             });
         }
         let text = case.text.clone();
